@@ -126,10 +126,11 @@ def run(ctx):
 	ctx.assume("where RF mute and a pending drop budget overlap, both budget outcomes are accepted (the statement is silent)")
 	r = ctx.rng("c18")
 	for i in range(ctx.scale(400, 60000)):
-		run_stream(ctx, r, i)
+		run_stream(ctx, ctx.case_rng("stream", i), i)
 		ctx.count("streams")
 		if ctx.too_many() or ctx.time_left() < 0:
 			break
+	ctx.current_case = None
 	ctx.require("outcomes_checked", 5000)
 	ctx.require("expected:nope:drop", 200)
 	ctx.require("expected:none:drop", 200)
@@ -140,6 +141,8 @@ def run(ctx):
 
 
 def replay(ctx, data):
-	ctx.rule = "replay: streams are regenerated from the seed; rerunning the check with the recorded seed"
+	if common.replay_case(ctx, data, {"stream": run_stream}):
+		return
+	ctx.rule = "replay: no case coordinates in the witness; rerunning the check with the recorded seed"
 	ctx.seed = data.get("seed", 0)
 	run(ctx)
